@@ -28,6 +28,7 @@ type forExpander struct {
 	// output fields
 	tokens chan token
 	closed bool
+	done   bool // a terminal token (EOF or error) has been emitted
 }
 
 type forStateFn func(f *forExpander) forStateFn
@@ -74,9 +75,11 @@ func (f *forExpander) run() {
 		state = state(f)
 	}
 
-	// add an extra EOF in case we end without one
-	// we don't want to block on reading from the channel
-	f.tokens <- token{tokEOF, ""}
+	// add an EOF in case we ended without a terminal token; a second one
+	// would never be received and block this goroutine forever
+	if !f.done {
+		f.tokens <- token{tokEOF, ""}
+	}
 	f.closed = true
 }
 
@@ -102,8 +105,18 @@ func (f *forExpander) Tokens() ([]token, error) {
 	return tokens, nil
 }
 
+// emit sends a token to the consumer and remembers whether it was the
+// terminal one (EOF or error): the consumer stops receiving there, so nothing
+// may be sent after it.
+func (f *forExpander) emit(tok token) {
+	if tok.typ == tokEOF || tok.typ == tokError {
+		f.done = true
+	}
+	f.tokens <- tok
+}
+
 func (f *forExpander) emitConsume(nextState forStateFn) forStateFn {
-	f.tokens <- f.nextToken
+	f.emit(f.nextToken)
 	f.next()
 	return nextState
 }
@@ -149,7 +162,7 @@ func forConsumeLabels(f *forExpander) forStateFn {
 		f.next()
 		return forConsumeLabels
 	} else {
-		f.tokens <- token{tokError, fmt.Sprintf("expected label, op, newlines, or comment, got '%s'", f.nextToken)}
+		f.emit(token{tokError, fmt.Sprintf("expected label, op, newlines, or comment, got '%s'", f.nextToken)})
 		return nil
 	}
 }
@@ -158,7 +171,7 @@ func forConsumeLabels(f *forExpander) forStateFn {
 // emits the current nextToken and returns forConsumeLine
 func forWriteLabelsEmitConsumeLine(f *forExpander) forStateFn {
 	for _, label := range f.labelBuf {
-		f.tokens <- token{tokText, label}
+		f.emit(token{tokText, label})
 	}
 	f.labelBuf = make([]string, 0)
 	return f.emitConsume(forConsumeEmitLine)
@@ -199,7 +212,7 @@ func forConsumeExpression(f *forExpander) forStateFn {
 	case tokEOF:
 		return nil
 	default:
-		// f.tokens <- f.nextToken
+		// f.emit(f.nextToken)
 		f.exprBuf = append(f.exprBuf, f.nextToken)
 		f.next()
 		return forConsumeExpression
@@ -213,7 +226,8 @@ func forFor(f *forExpander) forStateFn {
 	expr := make([]token, 0, len(f.exprBuf))
 	for _, tok := range f.exprBuf {
 		if tok.typ == tokEOF || tok.typ == tokError {
-			f.tokens <- token{tokError, fmt.Sprintf("unexpected expression term: %s", tok)}
+			f.emit(token{tokError, fmt.Sprintf("unexpected expression term: %s", tok)})
+			return nil
 		}
 		expr = append(expr, tok)
 	}
@@ -221,7 +235,7 @@ func forFor(f *forExpander) forStateFn {
 
 	val, err := ExpandAndEvaluate(f.exprBuf, f.symbols)
 	if err != nil {
-		f.tokens <- token{tokError, fmt.Sprintf("%s", err)}
+		f.emit(token{tokError, fmt.Sprintf("%s", err)})
 		return nil
 	}
 
@@ -286,7 +300,7 @@ func forInnerLabels(f *forExpander) forStateFn {
 		} else if f.nextToken.IsOp() {
 			if f.forLineLabelsToWrite != nil {
 				for _, label := range f.forLineLabelsToWrite {
-					f.tokens <- token{tokText, label}
+					f.emit(token{tokText, label})
 				}
 				f.forLineLabelsToWrite = nil
 			}
@@ -312,7 +326,7 @@ func forInnerEmitLabels(f *forExpander) forStateFn {
 func forInnerEmitConsumeLine(f *forExpander) forStateFn {
 	switch f.nextToken.typ {
 	case tokError:
-		f.tokens <- f.nextToken
+		f.emit(f.nextToken)
 		return nil
 	case tokEOF:
 		return nil
@@ -330,7 +344,7 @@ func forInnerEmitConsumeLine(f *forExpander) forStateFn {
 func forRof(f *forExpander) forStateFn {
 	for f.nextToken.typ != tokNewline {
 		if f.nextToken.typ == tokEOF || f.nextToken.typ == tokError {
-			f.tokens <- f.nextToken
+			f.emit(f.nextToken)
 			return nil
 		}
 		f.next()
@@ -341,23 +355,23 @@ func forRof(f *forExpander) forStateFn {
 		for _, tok := range f.forContent {
 			if tok.typ == tokText {
 				if tok.val == f.forCountLabel {
-					f.tokens <- token{tokNumber, fmt.Sprintf("%d", i)}
+					f.emit(token{tokNumber, fmt.Sprintf("%d", i)})
 				} else {
 					found := false
 					for _, label := range f.forLineLabels {
 						forLabel := fmt.Sprintf("__for_%s_%s", f.forCountLabel, label)
 						if tok.val == label {
-							f.tokens <- token{tokText, forLabel}
+							f.emit(token{tokText, forLabel})
 							found = true
 							break
 						}
 					}
 					if !found {
-						f.tokens <- tok
+						f.emit(tok)
 					}
 				}
 			} else {
-				f.tokens <- tok
+				f.emit(tok)
 			}
 		}
 	}
@@ -366,9 +380,12 @@ func forRof(f *forExpander) forStateFn {
 }
 
 func forEmitConsumeStream(f *forExpander) forStateFn {
-	for f.nextToken.typ != tokEOF {
-		f.tokens <- f.nextToken
+	for f.nextToken.typ != tokEOF && f.nextToken.typ != tokError {
+		f.emit(f.nextToken)
 		f.next()
+	}
+	if f.nextToken.typ == tokError {
+		f.emit(f.nextToken)
 	}
 	return nil
 }
